@@ -193,6 +193,14 @@ func wlWorkloads() map[string]*wlWorkload {
 			// mapped earlier (the live cache is updated directly, a restarted server rebuilds it from the log)
 			{"mappings-ingest", false, post("node/"+A+"/lm/mappings", string(c20MappingOps([][]uint64{{900, 1, 3}}).layer().Data))},
 			{"mappings-identity", false, post("node/"+A+"/lm/mappings", string(c20MappingOps([][]uint64{{901, 3, 3}, {901, 4, 4}}).layer().Data))},
+			// the next-label override, placed above the current repo-wide maximum (the unusual direction), then an allocation from it
+			{"set-nextlabel-above-max", true, func(*wlState) vsrv.Resp { return vsrv.Post("node/"+A+"/lm/set-nextlabel/5000", nil) }},
+			{"nextlabel-from-override", true, func(s *wlState) vsrv.Resp {
+				r := vsrv.Post("node/"+A+"/lm/nextlabel/3", nil)
+				s.id("label", wlJSONField(r, "start"))
+				s.id("label", wlJSONField(r, "end"))
+				return r
+			}},
 		}}
 
 	// W4: annotations
@@ -358,6 +366,33 @@ func wlWorkloads() map[string]*wlWorkload {
 	}
 	idOps = append(idOps, inst(R, "keyvalue", "late1", ""), commit(R), newver(R, A), inst(A, "keyvalue", "late2", ""))
 	ws["ids"] = &wlWorkload{Name: "ids", Versions: []string{R}, Instances: map[string][]string{"lm": {"size/1", "maxlabel"}}, Ops: idOps}
+	// every workload (except the identifier workload, whose operation positions C12 counts) reads all of its endpoints at
+	// all of its versions once, two thirds of the way through: reads build lazily filled caches and open logs, and the
+	// operations after them - and the restarts after those - run on that warmed state
+	for name, w := range ws {
+		if name == "ids" {
+			continue
+		}
+		w := w
+		readAll := wlOp{"read-all", true, func(*wlState) vsrv.Resp {
+			var insts []string
+			for in := range w.Instances {
+				insts = append(insts, in)
+			}
+			sort.Strings(insts)
+			for _, u := range w.Versions {
+				for _, in := range insts {
+					for _, p := range w.Instances[in] {
+						vsrv.Get("node/" + u + "/" + in + "/" + p)
+					}
+				}
+			}
+			vsrv.Get("repos/info")
+			return okResp()
+		}}
+		at := len(w.Ops) * 2 / 3
+		w.Ops = append(append(append([]wlOp{}, w.Ops[:at]...), readAll), w.Ops[at:]...)
+	}
 	return ws
 }
 
